@@ -439,6 +439,10 @@ class TileCreator(object):
                 source.image_opts = self.tile_mgr.image_opts
                 tile.source = source
                 tile.cacheable = source.cacheable
+                # the tile might be an expired tile that was loaded with the metadata
+                # of the old version, the new version gets its own timestamp and size
+                tile.timestamp = None
+                tile.size = None
                 tile = self.tile_mgr.apply_tile_filter(tile)
                 if source.cacheable:
                     self.cache.store_tile(tile)
